@@ -585,6 +585,66 @@ def monitors_m3u(chk, op, uri, cls, root, base, before, after, touches, res, ti,
 # ---------------------------------------------------------------------------- browse stage
 
 
+ODD_DIR_NAMES = ["inside, arch", "inside,2", "mu sic, old and new", "é, ü", "a=b", "semi;colon", "x , y", "inside2, z", "tab\there"]
+
+
+def config_from_text(rng, mdirs, st):
+    """Build the provider's config through the REAL loader from a [file] section text that names
+    exactly `mdirs` (multi-line style; comma style only when no path contains a comma)."""
+    from unittest import mock
+
+    from mopidy import config as config_lib
+    from mopidy.file import Extension
+
+    entries = [str(m) + rng.choice(["", "|Name", "|Na, me", "|My Music"]) for m in mdirs]
+    comma_ok = not any("," in e for e in entries)
+    if comma_ok and rng.random() < 0.4:
+        media = "media_dirs = " + rng.choice([", ", ",", " , "]).join(entries) + "\n"
+    else:
+        media = "media_dirs =\n" + "".join(f"    {e}\n" for e in entries)
+    exts = st["excluded_file_extensions"]
+    if exts and rng.random() < 0.5:
+        ex = "excluded_file_extensions =\n" + "".join(f"  {e}\n" for e in exts)
+    else:
+        ex = "excluded_file_extensions = " + ", ".join(exts) + "\n"
+    text = ("[file]\nenabled = true\n" + media + f"show_dotfiles = {'true' if st['show_dotfiles'] else 'false'}\n" + ex
+            + f"follow_symlinks = {'yes' if st['follow_symlinks'] else 'no'}\nmetadata_timeout = 1000\n")
+    work = Path(tempfile.mkdtemp(prefix="verif-c16-"))
+    try:
+        conf = work / "mopidy.conf"
+        conf.write_text(text, encoding="utf-8")
+        ext = Extension()
+        with mock.patch("mopidy.config.keyring.fetch", return_value=[]):
+            config, errors = config_lib.load([conf], [ext.get_config_schema()], [ext.get_default_config()], [])
+        if errors.get("file"):
+            raise RuntimeError(f"config text rejected: {errors['file']} for {text!r}")
+        return config, text
+    finally:
+        shutil.rmtree(work, ignore_errors=True)
+
+
+def served_monitor(chk, prov, mdirs, text, root):
+    """The directories the provider serves are exactly the (existing) directories that were
+    configured -- observed through the public API (root_directory / browse('file:root'))."""
+    from mopidy.internal import path as mpath
+
+    want = sorted(os.path.realpath(str(m)) for m in mdirs if os.path.isdir(m))
+    rd = prov.root_directory
+    if rd is None:
+        got = []
+    elif rd.uri == "file:root":
+        got = sorted(os.path.realpath(str(mpath.uri_to_path(r.uri))) for r in prov.browse("file:root"))
+    else:
+        got = [os.path.realpath(str(mpath.uri_to_path(rd.uri)))]
+    if got != want:
+        chk.monitor_failure(
+            "served_dirs_as_configured", {"call": "FileLibraryProvider", "via_config_text": text is not None,
+                                          "extra": bool(set(got) - set(want))},
+            "the file provider serves " + str([g.replace(str(root), '<R>') for g in got]) + " but the configuration names "
+            + str([w.replace(str(root), '<R>') for w in want]),
+            {"config_text": None if text is None else text.replace(str(root), "<R>")})
+
+
 def browse_stage(chk):
     from mopidy.file.library import FileLibraryProvider
     from mopidy.internal import path as mpath
@@ -597,17 +657,34 @@ def browse_stage(chk):
         root = Path(os.path.realpath(tempfile.mkdtemp(prefix="verif-c16-")))
         try:
             tree = gen_tree(rng, root)
+            # directories whose NAMES are hard for the config syntax (commas, '=', blanks inside,
+            # non-ASCII): they sit next to inside/ and may or may not be configured
+            cnt = [1000]
+            odd = rng.sample(ODD_DIR_NAMES, 2)
+            for nm in odd:
+                tree[nm] = ("D", gen_dir(rng, 1, "inside", cnt))
             build(tree, str(root))
-            mdirs = [root / "inside"] + ([root / "inside2"] if "inside2" in tree and rng.random() < 0.7 else [])
+            via_text = rng.random() < 0.6
+            if via_text:
+                pick = rng.choice([[odd[0]], [odd[0]], ["inside", odd[0]], [odd[1], odd[0], "inside"], ["inside"]])
+                mdirs = [root / n for n in pick]
+            else:
+                mdirs = [root / "inside"] + ([root / "inside2"] if "inside2" in tree and rng.random() < 0.7 else [])
             fs_term = g_fs(tree, root)
             items = []
             for _ in range(3 if quick else 5):
                 st = {"show_dotfiles": rng.random() < 0.5,
                       "excluded_file_extensions": rng.choice([[], [".jpg", ".png", ".TXT"], [".m3u8"], [".Log", ".zip", ".html"]]),
                       "follow_symlinks": rng.random() < 0.6}
-                cfg = {"file": {"media_dirs": [str(m) for m in mdirs], "metadata_timeout": 1000, **st}}
+                if via_text:
+                    cfg, text = config_from_text(rng, mdirs, st)
+                    chk.dist("browse:media_dirs-via-config.load")
+                else:
+                    cfg, text = {"file": {"media_dirs": [str(m) for m in mdirs], "metadata_timeout": 1000, **st}}, None
                 prov = FileLibraryProvider(backend=None, config=cfg)
+                served_monitor(chk, prov, mdirs, text, root)
                 targets = [root / "inside", root / "outside", root, root / "inside" / "sub", root / "inside" / "nope"]
+                targets += [root / n for n in odd] + [root / n / "sub" for n in odd]
                 for pth, k in all_paths(tree, []):
                     if k in ("D", "L") or rng.random() < 0.15:
                         targets.append(root.joinpath(*pth))
